@@ -142,6 +142,6 @@ Definition child_accepts (cr : crypto) (cx : context) (fuel : nat) (script : ite
   match run cr cx fuel (child_state script limit stack) with
   | ROk _ cs => negb (false_result cs)
                 && (0 <=? 192 + item_cost [] + item_cost script + item_cost []
-                          + runlimit cs + stack_cost (dstack cs) + stack_cost (astack cs) - item_cost [1])%Z
+                          + runlimit cs + stack_cost (dstack cs) + stack_cost (astack cs) - item_cost [1%N])%Z
   | RErr _ _ => false
   end.
